@@ -29,6 +29,7 @@ func init() {
 			{ID: "C07-R4", Title: "frames pushed above the current one are restored by defer (shared with C04-R4)", Floor: 3, Run: c04r4},
 			{ID: "C07-R6", Title: "run-scoped channels are closed once and cleared", Floor: 1, Run: func(c *core.Ctx) { closeOnce(c, "vm") }},
 			{ID: "C07-R7", Title: "run-state reset on entry only, guarded only by request and first-run", Floor: 2, Run: resetDiscipline},
+			{ID: "C07-R8", Title: "every run enters the dispatch loop with an empty operand stack", Floor: 1, Run: runStartsEmpty},
 			{ID: "C07-R5", Title: "VM-level caches are filled only after the fallible work succeeded", Floor: 1, Run: c07r5},
 		},
 	})
@@ -615,5 +616,129 @@ func resetDiscipline(c *core.Ctx) {
 	}
 	if n == 0 {
 		core.Undecidedf("no call of the reset function %s found", reset.Name())
+	}
+}
+
+// runStartsEmpty (C04-R6, C07-R8, C18-R6): top-level code enters the dispatch
+// loop with an empty operand stack on every run.  In each VM method that arms
+// the VM and calls the dispatch function itself, an assignment of a constant to
+// sp — directly or through a method that makes it unconditionally — dominates
+// the dispatch call.  A reset that only some runs pass through (the RunCode
+// path but not the REPL's Run) lets each finished piece leave its result behind
+// until the stack overflows.
+func runStartsEmpty(c *core.Ctx) {
+	p := c.P
+	r := resolveVMRoles(p)
+	dispatch := p.SSAFunc(dispatchFunc(p))
+	arm := p.SSAFunc(r.arm)
+	spF := fieldByName(r.vmT, "sp")
+	// methods that set sp to a constant on every path
+	setsSP := map[*ssa.Function]bool{}
+	constStore := func(in ssa.Instruction) bool {
+		st, ok := in.(*ssa.Store)
+		if !ok {
+			return false
+		}
+		fa, ok := st.Addr.(*ssa.FieldAddr)
+		if !ok || fieldVar(fa) != spF {
+			return false
+		}
+		_, isC := st.Val.(*ssa.Const)
+		return isC
+	}
+	var methods []*ssa.Function
+	for _, m := range core.Methods(r.vmT) {
+		if sf := p.SSAFunc(m); sf != nil && sf.Blocks != nil {
+			methods = append(methods, sf)
+		}
+	}
+	for changed := true; changed; {
+		changed = false
+		for _, sf := range methods {
+			if setsSP[sf] {
+				continue
+			}
+			for _, b := range sf.Blocks {
+				for _, in := range b.Instrs {
+					hit := constStore(in)
+					if ci, ok := in.(ssa.CallInstruction); ok {
+						if cal := ci.Common().StaticCallee(); cal != nil && setsSP[cal] {
+							if _, isDefer := in.(*ssa.Defer); !isDefer {
+								hit = true
+							}
+						}
+					}
+					if !hit {
+						continue
+					}
+					// b dominates every returning block
+					all := true
+					for _, rb := range sf.Blocks {
+						if len(rb.Instrs) > 0 {
+							if _, isRet := rb.Instrs[len(rb.Instrs)-1].(*ssa.Return); isRet && rb != b && !b.Dominates(rb) {
+								all = false
+							}
+						}
+					}
+					if all {
+						setsSP[sf] = true
+						changed = true
+					}
+				}
+			}
+		}
+	}
+	n := 0
+	for _, sf := range methods {
+		var armAt, dispAt ssa.Instruction
+		for _, b := range sf.Blocks {
+			for _, in := range b.Instrs {
+				if ci, ok := in.(ssa.CallInstruction); ok {
+					switch ci.Common().StaticCallee() {
+					case arm:
+						armAt = in
+					case dispatch:
+						if _, isDefer := in.(*ssa.Defer); !isDefer {
+							dispAt = in
+						}
+					}
+				}
+			}
+		}
+		if armAt == nil || dispAt == nil {
+			continue
+		}
+		n++
+		ok := false
+		db := dispAt.Block()
+		for _, b := range sf.Blocks {
+			for i, in := range b.Instrs {
+				hit := constStore(in)
+				if ci, isCall := in.(ssa.CallInstruction); isCall {
+					if cal := ci.Common().StaticCallee(); cal != nil && setsSP[cal] {
+						if _, isDefer := in.(*ssa.Defer); !isDefer {
+							hit = true
+						}
+					}
+				}
+				if !hit {
+					continue
+				}
+				if b == db {
+					for j, x := range db.Instrs {
+						if x == dispAt && i < j {
+							ok = true
+						}
+					}
+				} else if b.Dominates(db) {
+					ok = true
+				}
+			}
+		}
+		c.Check(ok, core.SSAName(sf)+"|empty-stack-before-dispatch", p.Pos(dispAt.Pos()),
+			sf.Name()+" runs top-level code: the operand stack is emptied (sp set to a constant) on every path that reaches the dispatch call — otherwise each finished run leaves its result (and each failed run its temporaries) on the stack of the next one")
+	}
+	if n == 0 {
+		core.Undecidedf("no VM method both arms the VM and calls the dispatch function")
 	}
 }
